@@ -486,6 +486,25 @@ def arrayPutIdx (jso : Node) (idx : Nat) (val : Node) : A (Node × Int) :=
       pure (.arr b al1 es1, 0)
   | _ => fault "json_object_array_put_idx: assert(json_object_get_type(jso) == json_type_array)"
 
+/-- int json_object_array_insert_idx(jso, idx, val) -/
+def arrayInsertIdx (jso : Node) (idx : Nat) (val : Node) : A (Node × Int) :=
+  match jso with
+  | .arr b al es =>
+    if idx ≥ al.length then arrayPutIdx jso idx val
+    else do
+      let (al1, rc) ← alInsertIdx al idx
+      if rc ≠ 0 then pure (.arr b al1 es, -1)
+      else pure (.arr b al1 (es.take idx ++ [val] ++ es.drop idx), 0)
+  | _ => fault "json_object_array_insert_idx: assert(json_object_get_type(jso) == json_type_array)"
+
+/-- int json_object_array_shrink(jso, empty_slots), `empty_slots >= 0` -/
+def arrayShrink (jso : Node) (emptySlots : Nat) : A (Node × Int) :=
+  match jso with
+  | .arr b al es => do
+    let (al1, rc) ← alShrink al emptySlots
+    pure (.arr b al1 es, rc)
+  | _ => fault "json_object_array_shrink: not an array"
+
 def findKey (key : Bytes) : List (Bytes × Option Blk × Node) → Option Nat
   | [] => none
   | (k, _, _) :: ms => if k = key then some 0 else (findKey key ms).map (· + 1)
